@@ -43,6 +43,7 @@ that mixes kinds or dtypes (decided from the input alone), so that a mixed-kind 
   value-cast-to-sentinel a value that the cast to the first entry's dtype turns into that dtype's None marker -> None
   number-to-str          number / bool -> its string (1 -> '1') because a str is in the collection
   scalar-to-array        a scalar among sequences came back as a 1-element array
+  nan-cast-to-int        a NaN inside a float row stored next to int rows came back as -2**63 (direct pack calls only)
   flags-coerced          a Flags object stored as its integer / as an empty dict (direct pack calls only)
   read-error             the write was accepted, reading raises (current tree: only pack.mixed.read-error - a direct pack
                          call on an object array WITHOUT None that holds a Flags object: stored via int(Flags), no
@@ -85,7 +86,7 @@ runLog.setVerbosity("header")  # the encoder logs every rejection; keep stdout f
 
 B = Bounded(
     "collections (one entry per object) built from a fixed alphabet of 60+ entry kinds: one-kind (windows of consecutive pool "
-    "values, every value in every position) and mixed (every pair of 21 / 36 representative kinds, alternating; thorough adds "
+    "values, every value in every position) and mixed (every pair of 23 / 36 representative kinds, alternating; thorough adds "
     "20000 seeded random 3-kind mixes), each "
     "combined with EVERY None-position pattern; each collection is evaluated by the pack, nonsense, jagged and db.params "
     "clauses that apply to it; distinct = distinct (clause, form, collection)",
@@ -203,9 +204,9 @@ KINDS["flags"] = [["F", ["FUEL"]], ["F", ["FUEL", "INNER"]], ["F", []], ["F", ["
 # one representative per region of the encoder's decision space, for the mixed-kind collections
 MIX_KINDS = ["pyint", "pyint-extreme", "np-int8", "np-uint8", "np-uint64", "float", "float-nan", "np-float32", "bool", "str",
              "arr1f-equal", "arr1f-ragged", "arr1i-equal", "arr2f-equal", "arr2-ragged", "list-equal", "list-ragged", "tuple",
-             "empty", "dict", "flags"]
+             "empty", "dict", "flags", "arr1f-nan", "arr-str"]
 if B.thorough():
-    MIX_KINDS += ["np-int64", "np-uint16", "np-float64", "np-bool", "str-unicode", "arr1f-nan", "arr1u8", "arr-bool", "arr-str", "list2-equal",
+    MIX_KINDS += ["np-int64", "np-uint16", "np-float64", "np-bool", "str-unicode", "arr1u8", "arr-bool", "list2-equal",
                   "list-inner-ragged", "dict-nan", "sentinel-int8", "sentinel-uint8", "arr-zero-width"]
 
 
@@ -323,7 +324,9 @@ def leaf_cmp(e, a):
         if a is None:
             tol("NaN->None")
             return OK
-        return OK if isnan(a) else ("value", "number-to-str" if isinstance(a, str) else "silent-change")
+        if isnan(a):
+            return OK
+        return ("value", "number-to-str" if isinstance(a, str) else ("nan-cast-to-int" if kind(a) == "int" else "silent-change"))
     if a is None:
         return ("none", "value-became-none")
     ke, ka = kind(e), kind(a)
